@@ -1,5 +1,6 @@
 """C07 - bracketing root finders return a root inside the bracket and terminate.
-E1: lattice designs of bisection and ITP's projection step (MC_Bisection) are model-checked against the contract.
+E1: lattice designs of bisection (MC_Bisection, IEEE signed zeros) and of ITP (MC_Itp: any trial point the projection
+    step admits) are model-checked against the contract: abscissae inside, sign change kept, iteration bounds, result near the root.
 E2: TLC (Gen_C07) enumerates dyadic lattice brackets x root positions x tolerances x sign x solver.
 E3: seeded functions with known root sets (polynomial, exponential, trigonometric, flat near the root, several roots),
     brackets in either order / asymmetric / far from zero, tol 1e-12..1e-2, ITP parameters over and just outside their
@@ -100,6 +101,8 @@ def run(ctx):
     rng = random.Random(ctx.seed)
     try:
         m = vlib.tlc("MC_Bisection", workers=4, timeout=900, deque=False)
+        ctx.add_tlc(m, e1=True)
+        m = vlib.tlc("MC_Itp", workers=4, timeout=900, deque=False, xmx="6g")
         ctx.add_tlc(m, e1=True)
     except vlib.ToolError:
         raise
